@@ -270,6 +270,7 @@ func c39names(r *vk.Run) {
 		[]rune("٣²Ⅷ¼"),      // Unicode numbers (Nd, No, Nl)
 		[]rune("́​🙂\x1b\n"), // combining mark, zero-width space, emoji, control characters
 	}
+	sampledName := false
 	judge := func(name string, class string) {
 		r.Eval(1)
 		valid, reason := nameRule(name)
@@ -286,6 +287,10 @@ func c39names(r *vk.Run) {
 				rule = "name-rejected-against-rule"
 			}
 			r.Violation(map[string]string{"rule": rule, "reason": reason}, fmt.Sprintf("EnsureNameValid(%+q) accepted=%v, the documented rule says %s", name, accepted, reason), w)
+		}
+		if class == "uuid-shaped" && reason == "uuid" && !sampledName {
+			sampledName = true
+			r.Sample(map[string]any{"name": name, "documented_rule_says": reason, "accepted": accepted})
 		}
 		r.Distinct("name|" + class + "|" + reason)
 		r.Count("names_"+reason, 1)
@@ -349,5 +354,4 @@ func c39names(r *vk.Run) {
 			judge(s, "random")
 		}
 	}
-	r.Sample(map[string]string{"name": "abcdef01-2345-6789-abcd-ef0123456789", "expected": "rejected (UUID)"})
 }
